@@ -636,13 +636,15 @@ public:
       variable_t scalar_lhs(mk_scalar_var(lhs, size.get_constant()));
       variable_t scalar_rhs(mk_scalar_var(rhs, size.get_constant()));
 
-      auto ty = scalar_lhs.get_type();
-      if (ty.is_bool()) {
-        m_base_dom.assign_bool_var(scalar_lhs, scalar_rhs, false);
-      } else {
-        assert(ty.is_integer() || ty.is_real());
-        m_base_dom.assign(scalar_lhs, scalar_rhs);
+      if (scalar_lhs == scalar_rhs) {
+        return;
       }
+      // Both scalars are summarized variables: assigning one to the
+      // other would state that every cell of lhs equals every cell of
+      // rhs (see array_load). The summary of lhs gets a copy of the
+      // constraints of the summary of rhs instead.
+      m_base_dom -= scalar_lhs;
+      m_base_dom.expand(scalar_rhs, scalar_lhs);
     }
   }
 
